@@ -2,6 +2,8 @@
   C09 — Header parsing never reads outside the declared header.
   `C09Parts`: per-entry-point theorems; `C09Sweep`: the end-to-end theorem about `HSweep.hsweep`.
 -/
+import Mb2.Props.FnsLinked
+import Mb2.Props.FnsGetters
 import Mb2.Props.FnsCast
 import Mb2.Props.FnsBytesRef
 import Mb2.Props.FnsHtHdr
